@@ -1,6 +1,7 @@
 package main
 
 import (
+	"go/types"
 	"bytes"
 	"context"
 	"fmt"
@@ -13,6 +14,8 @@ import (
 )
 
 type SolveResult struct {
+	wantSoft bool
+	CandidateQF bool // no definite answer on the full query, but the quantifier-free part has a model (a candidate counterexample, to be confirmed by replay)
 	Status   string // unsat, sat, unknown, timeout, error
 	Solver   string
 	Ms       int64
@@ -60,8 +63,61 @@ func (o *Obligation) smtQF() string {
 			sb.WriteByte('\n')
 		}
 	}
-	sb.WriteString("(assert (not " + o.Goal + "))\n(check-sat)\n")
+	sb.WriteString("(assert (not " + o.Goal + "))\n")
+	for _, l := range o.softLines() {
+		sb.WriteString(l + "\n")
+	}
+	sb.WriteString("(check-sat)\n")
 	return sb.String()
+}
+
+// softLines: preferences for candidate counterexamples - unset optional fields of the objects
+// the parameters point to - so that the candidate isolates the keyword at fault.
+func (o *Obligation) softLines() []string {
+	if o.Result == nil || !o.Result.wantSoft {
+		return nil
+	}
+	vc := o.vc
+	var out []string
+	for _, prm := range vc.fn.Params {
+		pt, ok := prm.Type().Underlying().(*types.Pointer)
+		if !ok {
+			continue
+		}
+		st, ok := pt.Elem().Underlying().(*types.Struct)
+		if !ok {
+			continue
+		}
+		pname := "p$" + sanitize(prm.Name())
+		for i := 0; i < st.NumFields(); i++ {
+			comp := "F$" + typeShort(pt.Elem()) + "$" + st.Field(i).Name()
+			sortS, used := vc.compSort[comp]
+			if !used {
+				continue
+			}
+			_, vs := arrayParts(sortS)
+			zero := ""
+			switch vs {
+			case sInt:
+				zero = "0"
+			case sBool:
+				zero = "false"
+			case sString:
+				zero = "\"\""
+			case sSlice:
+				zero = "(mk-slice 0 0 0)"
+			}
+			if zero == "" {
+				continue
+			}
+			name := comp + "!e0"
+			if !vc.enc.declared[name] {
+				continue
+			}
+			out = append(out, "(assert-soft (= (select "+name+" "+pname+") "+zero+"))")
+		}
+	}
+	return out
 }
 
 func (o *Obligation) smt(withModel bool) string {
@@ -224,6 +280,22 @@ func solve(o *Obligation, dir string, budgetMs int, portfolioAll bool) *SolveRes
 				res.Model = res.Output
 			}
 			return res
+		}
+	}
+	if o.Expect == "unsat" && !portfolioAll {
+		// no definite answer: look for a candidate counterexample among the models of the
+		// quantifier-free part of the assumptions (only a replay on the real code can confirm it)
+		res.wantSoft = true
+		o.Result = res
+		qf := o.smtQF()
+		qfFile := file + ".cand.smt2"
+		if err := os.WriteFile(qfFile, []byte(qf), 0o644); err == nil {
+			st, out, _ := runSolver(ctx, solvers[0], qfFile, 3000)
+			os.Remove(qfFile)
+			if st == "sat" {
+				res.CandidateQF = true
+				res.Model = out
+			}
 		}
 	}
 	if res.Status == "" || res.Status == "error" {
